@@ -1,19 +1,35 @@
 /- GENERATED: instance obligations for one logic, discharged by kernel evaluation.
-   `X ⊆ known`: every failing row is a committed known finding (Ptx/Gen/Known.lean). -/
+   `S` = the logic with its DOCUMENTED tables (Ptx/Sem/Spec.lean); rules, closure, trunk and frames
+   are what the translator read off the code.  `X ⊆ known`: every failing row is a committed
+   known finding (Ptx/Gen/Known.lean, generated from known_findings.json). -/
 import Ptx.Gen.L_S5K3WQ
 import Ptx.Gen.Known
 import Ptx.Sem.Subset
+import Ptx.Props.C01
+import Ptx.Gen.L_K3WQ
 namespace Ptx.Gen.Obl.S5K3WQ
 open Ptx
 
-theorem tables_total : Gen.S5K3WQ.tablesTotalB = true := by decide +kernel
-theorem rules_exact : subsetB Gen.S5K3WQ.badRules (Known.badRules "S5K3WQ") = true := by decide +kernel
-theorem rules_sound : subsetB Gen.S5K3WQ.unsoundRules (Known.unsoundRules "S5K3WQ") = true := by decide +kernel
-theorem rules_total : subsetB Gen.S5K3WQ.missingRules (Known.missingRules "S5K3WQ") = true := by decide +kernel
-theorem rules_local : Gen.S5K3WQ.nonLocalRules = [] := by decide +kernel
-theorem closure_total : Gen.S5K3WQ.closureTotalB = true := by decide +kernel
-theorem closure_exact : subsetB Gen.S5K3WQ.badClosure (Known.badClosure "S5K3WQ") = true := by decide +kernel
-theorem read_total : Gen.S5K3WQ.readTotalB = true := by decide +kernel
-theorem read_exact : subsetB Gen.S5K3WQ.badRead (Known.badRead "S5K3WQ") = true := by decide +kernel
+/-- a modal / first-order extension has exactly the truth-functional tables of its base (K3WQ) -/
+theorem base_tables : Gen.S5K3WQ.tables.sameTF Gen.K3WQ.tables = true := by decide +kernel
+theorem spec_defined : Gen.S5K3WQ.specDefinedB = true := by decide +kernel
+theorem tables_spec : subsetB Gen.S5K3WQ.tableDiff (Known.tableDiff "S5K3WQ") = true := by decide +kernel
+theorem defined_ops : Gen.S5K3WQ.tables.definedOpsBad = [] := by decide +kernel
+theorem tables_total : Gen.S5K3WQ.sem.tablesTotalB = true := by decide +kernel
+theorem rules_exact : subsetB Gen.S5K3WQ.sem.badRules (Known.badRules "S5K3WQ") = true := by decide +kernel
+theorem rules_sound : subsetB Gen.S5K3WQ.sem.unsoundRules (Known.unsoundRules "S5K3WQ") = true := by decide +kernel
+theorem rules_total : subsetB Gen.S5K3WQ.sem.missingRules (Known.missingRules "S5K3WQ") = true := by decide +kernel
+theorem rules_local : Gen.S5K3WQ.sem.nonLocalRules = [] := by decide +kernel
+theorem closure_total : Gen.S5K3WQ.sem.closureTotalB = true := by decide +kernel
+theorem closure_exact : subsetB Gen.S5K3WQ.sem.badClosure (Known.badClosure "S5K3WQ") = true := by decide +kernel
+theorem read_total : Gen.S5K3WQ.sem.readTotalB = true := by decide +kernel
+theorem read_exact : subsetB Gen.S5K3WQ.sem.badRead (Known.badRead "S5K3WQ") = true := by decide +kernel
+theorem sound_core : Gen.S5K3WQ.sem.soundCoreB = true := by decide +kernel
+
+/-- C01 for this logic: a closed tableau reached by any legal derivation has no countermodel. -/
+theorem c01_valid_sound (arg : Argument) (t : Tableau)
+    (hd : Deriv Gen.S5K3WQ.sem.soundPart.noQuantPart (trunk Gen.S5K3WQ.sem arg) t) (hclosed : t.allClosed = true)
+    (M : Struct) (hM : M.Interp Gen.S5K3WQ.sem) (e : Env M.D) (w0 : M.W) : ¬ Countermodel Gen.S5K3WQ.sem M e w0 arg :=
+  Props.C01.C01_valid_sound_partial Gen.S5K3WQ.sem sound_core arg t hd hclosed M hM e w0
 
 end Ptx.Gen.Obl.S5K3WQ
